@@ -335,11 +335,18 @@ func c05run(m *mon.M, sc *c05scenario, impl string, arena *guard.Arena) {
 		case s.op.phase == "repeat" && okSoFar:
 			m.Violation("sum-disturbs-state:"+tag, d)
 		case (s.op.phase == "after-reset" || s.op.phase == "after-reset-mid") && okSoFar:
-			m.Violation("reset-not-initial:"+tag, d)
+			// Reset's fault only if a freshly constructed hash driven with the
+			// same second-phase operations gets this digest right
+			if c05freshAgrees(sc, s.op) {
+				m.Violation("reset-not-initial:"+tag, d)
+			} else {
+				m.Violation("wrong-digest:"+tag, d)
+			}
 		default:
 			m.Violation("wrong-digest:"+tag, d)
 		}
 		okSoFar = false
+		break // later sums of this run are consequences of the first divergence
 	}
 	if oneShotOK {
 		m.Count("oneshot_checked", 1)
@@ -348,6 +355,32 @@ func c05run(m *mon.M, sc *c05scenario, impl string, arena *guard.Arena) {
 			m.Violation("wrong-digest-oneshot:"+tag, wit(map[string]any{"got": mon.Hex(oneShot), "want": mon.Hex(want)}))
 		}
 	}
+}
+
+// c05freshAgrees replays the post-Reset operations on a new hash (same
+// dispatch variant still forced) and reports whether the sum at op target is
+// then correct.
+func c05freshAgrees(sc *c05scenario, target c05op) (ok bool) {
+	defer func() {
+		if recover() != nil {
+			ok = false
+		}
+	}()
+	h, _, err := sc.newHash()
+	if err != nil {
+		return false
+	}
+	for _, o := range sc.ops[1] {
+		if !o.sum {
+			h.Write(sc.msg[1][o.lo:o.hi])
+			continue
+		}
+		got := h.Sum(nil)
+		if bytes.Equal(o.want, target.want) && o.phase == target.phase {
+			return bytes.Equal(got, target.want)
+		}
+	}
+	return false
 }
 
 func keyedKey(k []byte) bool { return len(k) > 0 }
